@@ -6,15 +6,20 @@
 //! a few register / flag states, and compares EVERY general-purpose register and the CF/ZF/SF/OF/DF flags with an
 //! INDEPENDENT model of the processor written here, for the tiny instruction subset whose semantics is beyond
 //! doubt:  mov r,imm / mov r/m,imm / mov r,r (both directions) / xchg / movzx / movsx / movsxd / add / sub / cmp
-//! (register and immediate forms) / inc / dec / neg, on EVERY 8/16/32/64-bit register name of the two modes
+//! (register and immediate forms) / inc / dec / neg / one-operand mul / imul / div / idiv (states in which the
+//! processor raises #DE are skipped), on EVERY 8/16/32/64-bit register name of the two modes
 //! (al..bh, spl..dil, r8b..r15b, ax.., r8w.., eax.., r8d.., rax.., r8..r15), hand-encoded (opcodes B0+r, B8+r,
 //! C6, C7, 88-8B, 86, 87, 90+r, 0F B6/B7/BE/BF, 63, 00-03, 28-2B, 38-3B, 04/05, 2C/2D, 3C/3D, 80, 81, 83, FE, FF,
-//! F6, F7, 40+r, 48+r with 66 and REX prefixes).
+//! F6 /3../7, F7 /3../7, 40+r, 48+r with 66 and REX prefixes).
 //! Model rules (x86 architecture): a write to an 8- or 16-bit register leaves every other bit of the full register
 //! unchanged; a write to a 32-bit register in 64-bit mode clears bits 63..32; every other register is unchanged;
 //! ZF = (result == 0), SF = msb(result), CF / OF = unsigned / signed overflow of the addition resp. subtraction;
-//! inc / dec keep CF; neg sets CF = (operand != 0); mov / xchg / movzx / movsx change no flag; DF is never changed.
-//! One JSON line per disagreement (at most 40 printed, all counted), then a summary line.
+//! inc / dec keep CF; neg sets CF = (operand != 0); mov / xchg / movzx / movsx change no flag; DF is never changed;
+//! mul / imul: hi:lo = product, CF = OF = (the upper half is significant), ZF / SF undefined (not compared); div / idiv:
+//! lo = quotient, hi = remainder (truncating), all arithmetic flags undefined (not compared).
+//! An encoding the lifter REJECTS (any error other than a sort error) is outside the property; such encodings are counted
+//! and listed in the summary (`rejected_encodings`), a sort error while lifting IS a disagreement.
+//! One JSON line per disagreement (at most 40 printed, all counted; C01_WITNESS_PRINT=n overrides), then a summary line.
 use falcon::architecture;
 use falcon::architecture::Endian;
 use falcon::executor::{Driver, Memory, State};
@@ -103,7 +108,9 @@ enum Un { Inc, Dec, Neg }
 #[derive(Clone, Copy, Debug)]
 enum Src { Reg(R), Imm(u64) }
 #[derive(Clone, Copy, Debug)]
-enum Sem { MovImm(R, u64), Mov(R, R), Xchg(R, R), Movzx(R, R), Movsx(R, R), Alu(Alu, R, Src), Un(Un, R) }
+enum Sem { MovImm(R, u64), Mov(R, R), Xchg(R, R), Movzx(R, R), Movsx(R, R), Alu(Alu, R, Src), Un(Un, R), MulDiv(Md, R) }
+#[derive(Clone, Copy, Debug, PartialEq)]
+enum Md { Mul, Imul, Div, Idiv }
 
 fn sext(v: u64, from: u8, to: u8) -> u64 {
     let v = v & wmask(from);
@@ -130,8 +137,9 @@ fn flags_sub(c: &mut Cpu, w: u8, a: u64, b: u64, set_cf: bool) -> u64 {
     res
 }
 
-fn model(c: &mut Cpu, m: M, s: &Sem) {
+fn model(c: &mut Cpu, m: M, s: &Sem) -> bool {
     match *s {
+        Sem::MulDiv(op, src) => return muldiv(c, m, op, src),
         Sem::MovImm(d, v) => c.write(m, d, v),
         Sem::Mov(d, s) => { let v = c.read(s); c.write(m, d, v) }
         Sem::Xchg(a, b) => { let (va, vb) = (c.read(a), c.read(b)); c.write(m, a, vb); c.write(m, b, va) }
@@ -153,6 +161,51 @@ fn model(c: &mut Cpu, m: M, s: &Sem) {
                 Un::Dec => { let r = flags_sub(c, d.w, a, 1, false); c.write(m, d, r) }
                 Un::Neg => { let r = flags_sub(c, d.w, 0, a, true); c.write(m, d, r) }
             }
+        }
+    }
+    true
+}
+
+/// one-operand mul / imul / div / idiv on the accumulator pair. Returns false when the processor
+/// raises #DE (zero divisor, quotient out of range). Flags: mul / imul define CF = OF only; div / idiv define none.
+fn muldiv(c: &mut Cpu, m: M, op: Md, src: R) -> bool {
+    let w = src.w;
+    let lo = R { idx: 0, w, high: false };
+    let hi = if w == 8 { R { idx: 0, w: 8, high: true } } else { R { idx: 2, w, high: false } };
+    let b = c.read(src);
+    let (a_lo, a_hi) = (c.read(lo), c.read(hi));
+    let sx = |v: u64| -> i128 { sext(v, w, 64) as i64 as i128 };
+    match op {
+        Md::Mul | Md::Imul => {
+            let p: u128 = if op == Md::Mul { (a_lo as u128) * (b as u128) } else { (sx(a_lo) * sx(b)) as u128 };
+            let (rl, rh) = ((p as u64) & wmask(w), ((p >> w) as u64) & wmask(w));
+            // 8-bit: AX = AL * src (ah = high half); wider: hi:lo
+            c.write(m, lo, rl);
+            c.write(m, hi, rh);
+            let over = if op == Md::Mul { rh != 0 } else { sx(rl) != (sx(a_lo) * sx(b)) };
+            c.cf = over; c.of = over;
+            true
+        }
+        Md::Div => {
+            if b == 0 { return false; }
+            let n: u128 = ((a_hi as u128) << w) | a_lo as u128;
+            let (q, r) = (n / b as u128, n % b as u128);
+            if q > wmask(w) as u128 { return false; }
+            c.write(m, lo, q as u64);
+            c.write(m, hi, r as u64);
+            true
+        }
+        Md::Idiv => {
+            if b == 0 { return false; }
+            let n: i128 = if w == 64 { (((a_hi as u128) << 64) | a_lo as u128) as i128 } else { sext(((a_hi << w) | a_lo) & wmask(2 * w), 2 * w, 64) as i64 as i128 };
+            let d = sx(b);
+            if n == i128::MIN && d == -1 { return false; }
+            let (q, r) = (n / d, n % d);
+            let (minq, maxq) = (-(1i128 << (w - 1)), (1i128 << (w - 1)) - 1);
+            if q < minq || q > maxq { return false; }
+            c.write(m, lo, q as u64);
+            c.write(m, hi, r as u64);
+            true
         }
     }
 }
@@ -194,7 +247,7 @@ fn imm_bytes(v: u64, n: usize) -> Vec<u8> { (0..n).map(|i| (v >> (8 * i)) as u8)
 
 struct Case { op: &'static str, asm: String, bytes: Vec<u8>, sem: Sem, kind: Kind }
 #[derive(Clone, Copy, PartialEq)]
-enum Kind { Move, Alu2, Alu1 }
+enum Kind { Move, Alu2, Alu1, MulDiv }
 
 fn boundary(w: u8) -> Vec<u64> {
     let m = wmask(w);
@@ -288,6 +341,13 @@ fn cases(m: M) -> Vec<Case> {
             if m == M::X86 && !o8 {
                 push("inc", format!("inc {} (40+r)", d.name()), plus_r(m, w, 0x40, d), Sem::Un(Un::Inc, d), Kind::Alu1);
                 push("dec", format!("dec {} (48+r)", d.name()), plus_r(m, w, 0x48, d), Sem::Un(Un::Dec, d), Kind::Alu1);
+            }
+        }
+        // ---- one-operand mul / imul / div / idiv (F6 /4../7, F7 /4../7) on the accumulator pair
+        for &d in &rs {
+            for (op, name, dg) in [(Md::Mul, "mul", 4u8), (Md::Imul, "imul", 5), (Md::Div, "div", 6), (Md::Idiv, "idiv", 7)] {
+                let opname: &'static str = match op { Md::Mul => "mul", Md::Imul => "imul", Md::Div => "div", Md::Idiv => "idiv" };
+                push(opname, format!("{} {}", name, d.name()), digit(m, w, &[if o8 { 0xF6 } else { 0xF7 }], dg, d), Sem::MulDiv(op, d), Kind::MulDiv);
             }
         }
         // ---- movzx / movsx from 8- and 16-bit registers into this width ; movsxd
@@ -400,6 +460,7 @@ fn related(kind: Kind) -> &'static str {
         Kind::Move => "[\"set\",\"get\",\"get_register\"]",
         Kind::Alu2 => "[\"set\",\"get\",\"get_register\",\"set_zf\",\"set_sf\",\"set_of\",\"set_cf\"]",
         Kind::Alu1 => "[\"set\",\"get\",\"get_register\",\"set_zf\",\"set_sf\",\"set_of\"]",
+        Kind::MulDiv => "[\"set\",\"get\",\"get_register\"]",
     }
 }
 
@@ -409,6 +470,8 @@ fn main() {
     let mut found = 0u64;
     let mut printed = 0u64;
     let mut encodings = 0u64;
+    let mut rejected = 0u64;
+    let mut rejected_examples: Vec<String> = Vec::new();
     let limit: u64 = std::env::var("C01_WITNESS_PRINT").ok().and_then(|s| s.parse().ok()).unwrap_or(40);
     let mut per_op: BTreeMap<String, (u64, u64, u64)> = BTreeMap::new(); // op -> (encodings, evaluations, disagreements)
     for m in [M::X86, M::Amd64] {
@@ -430,7 +493,18 @@ fn main() {
             let lifted = catch_unwind(AssertUnwindSafe(|| lift(m, &case.bytes)));
             let program = match lifted {
                 Ok(Ok(p)) => p,
-                Ok(Err(e)) => { evals += 1; per_op.get_mut(&key).unwrap().1 += 1; report(&bases[0], "lifting".to_string(), "Ok".to_string(), format!("Err({})", e.replace('"', "'")), &mut found, &mut printed, &mut per_op); continue; }
+                Ok(Err(e)) => {
+                    // an encoding the lifter REJECTS is outside the property ("every encoding the lifter accepts") unless the
+                    // rejection is an operand-width (sort) error, which the property forbids; rejections are counted and listed
+                    if e.contains("Sort error") {
+                        evals += 1; per_op.get_mut(&key).unwrap().1 += 1;
+                        report(&bases[0], "lifting".to_string(), "Ok".to_string(), format!("Err({})", e.replace('"', "'")), &mut found, &mut printed, &mut per_op);
+                    } else {
+                        rejected += 1;
+                        if rejected_examples.len() < 8 { rejected_examples.push(format!("{{\"mode\":\"{}\",\"bytes\":\"{}\",\"asm\":\"{}\",\"error\":\"{}\"}}", if m == M::X86 { "x86" } else { "amd64" }, hex.join(" "), case.asm, e.replace('"', "'").replace('`', "'"))); }
+                    }
+                    continue;
+                }
                 Err(_) => { evals += 1; per_op.get_mut(&key).unwrap().1 += 1; report(&bases[0], "lifting".to_string(), "Ok".to_string(), "panic".to_string(), &mut found, &mut printed, &mut per_op); continue; }
             };
             // the register states of this case
@@ -456,16 +530,30 @@ fn main() {
                         states.push(st);
                     } }
                 }
+                (Kind::MulDiv, Sem::MulDiv(_, d)) => {
+                    let lo = R { idx: 0, w: d.w, high: false };
+                    let hi = if d.w == 8 { R { idx: 0, w: 8, high: true } } else { R { idx: 2, w: d.w, high: false } };
+                    for b in boundary(d.w).into_iter().chain([3u64, 0x10]) { for a in boundary(d.w).into_iter().chain([7u64, 0x64]) { for h in [0u64, 1, 2, wmask(d.w), wmask(d.w) >> 1] {
+                        let mut st = bases[0].clone();
+                        st.write(m, lo, a);
+                        st.write(m, hi, h);
+                        st.write(m, d, b);
+                        states.push(st);
+                    } } }
+                }
                 _ => unreachable!(),
             }
             for st in &states {
+                let mut exp = st.clone();
+                if !model(&mut exp, m, &case.sem) { continue; } // the processor faults (#DE): outside the property
                 evals += 1;
                 per_op.get_mut(&key).unwrap().1 += 1;
-                let mut exp = st.clone();
-                model(&mut exp, m, &case.sem);
                 let got = catch_unwind(AssertUnwindSafe(|| run(m, &program, case.bytes.len() as u64, st)));
                 match got {
-                    Ok(Ok(g)) => { if let Some((w, e, g)) = diff(m, &exp, &g) { report(st, w, e, g, &mut found, &mut printed, &mut per_op); } }
+                    Ok(Ok(mut g)) => {
+                        // flags the architecture leaves undefined are not compared
+                        if let Sem::MulDiv(op, _) = case.sem { g.zf = exp.zf; g.sf = exp.sf; if op == Md::Div || op == Md::Idiv { g.cf = exp.cf; g.of = exp.of; } }
+                        if let Some((w, e, g)) = diff(m, &exp, &g) { report(st, w, e, g, &mut found, &mut printed, &mut per_op); } }
                     Ok(Err(e)) => report(st, "execution".to_string(), "runs to the next instruction address".to_string(), e.replace('"', "'"), &mut found, &mut printed, &mut per_op),
                     Err(_) => report(st, "execution".to_string(), "runs to the next instruction address".to_string(), "panic".to_string(), &mut found, &mut printed, &mut per_op),
                 }
@@ -473,5 +561,5 @@ fn main() {
         }
     }
     let per: Vec<String> = per_op.iter().map(|(k, v)| format!("\"{}\":{{\"encodings\":{},\"evaluations\":{},\"disagreements\":{}}}", k, v.0, v.1, v.2)).collect();
-    println!("{{\"summary\":true,\"evaluations\":{},\"encodings\":{},\"disagreements\":{},\"per_op\":{{{}}}}}", evals, encodings, found, per.join(","));
+    println!("{{\"summary\":true,\"evaluations\":{},\"encodings\":{},\"disagreements\":{},\"rejected_encodings\":{},\"rejected_examples\":[{}],\"per_op\":{{{}}}}}", evals, encodings, found, rejected, rejected_examples.join(","), per.join(","));
 }
